@@ -24,8 +24,9 @@ def nontrivial(case, sched, starts, info):
 def variants():
     import os
     if os.path.isdir(os.path.join(os.path.dirname(os.path.dirname(__file__)), "fakes", "redis")):
-        return st.sampled_from([{"store": "file", "n_engines": 1}, {"store": "redis", "n_engines": 1}, {"store": "redis", "n_engines": 2}])
-    return st.just({"store": "file", "n_engines": 1})
+        return st.sampled_from([{"store": "file", "n_engines": 1}, {"store": "file", "n_engines": 1, "rerun_same_name": True}, {"store": "file", "n_engines": 1, "logging": "ALL"},
+                                {"store": "redis", "n_engines": 1}, {"store": "redis", "n_engines": 2}, {"store": "redis", "n_engines": 2, "rerun_same_name": True}])
+    return st.sampled_from([{"store": "file", "n_engines": 1}, {"store": "file", "n_engines": 1, "rerun_same_name": True}, {"store": "file", "n_engines": 1, "logging": "ALL"}])
 
 
 mon.SPECS[PID] = mon.Spec(PID, ("surface", "exceptions"), RULE, [
